@@ -100,6 +100,31 @@ fn main() {
                 println!("{bad}/{n} invalid");
                 return;
             }
+            "--reparse" => {
+                // debug: vcheck --reparse <lang> <file> <start> <old_end> <inserted> : log the incremental parse
+                let l = vengine::lang::zoo(&args[i + 1]);
+                let bytes = std::fs::read(&args[i + 2]).unwrap();
+                let start: usize = args[i + 3].parse().unwrap();
+                let old_end: usize = args[i + 4].parse().unwrap();
+                let ins = args[i + 5].replace("\\n", "\n").into_bytes();
+                let mut p = tree_sitter::Parser::new();
+                p.set_language(&l.language).unwrap();
+                let mut tree = p.parse(&bytes, None).unwrap();
+                println!("old: {}", vengine::model::xtree::XTree::build(&tree).render(&l.language, 400));
+                let mut text = vengine::model::text::Text::new(bytes);
+                let ie = text.apply(&vengine::model::text::Edit { start, old_end, inserted: ins });
+                tree.edit(&ie);
+                p.set_logger(Some(Box::new(|ty, msg| {
+                    println!("  {} {msg}", if ty == tree_sitter::LogType::Lex { "lex  " } else { "parse" });
+                })));
+                let t2 = p.parse(&text.bytes, Some(&tree)).unwrap();
+                println!("inc: {}", vengine::model::xtree::XTree::build(&t2).render(&l.language, 400));
+                let mut p2 = tree_sitter::Parser::new();
+                p2.set_language(&l.language).unwrap();
+                let t3 = p2.parse(&text.bytes, None).unwrap();
+                println!("scr: {}", vengine::model::xtree::XTree::build(&t3).render(&l.language, 400));
+                return;
+            }
             "--list" => {
                 for c in checks::registry() {
                     println!("{}", c.id());
